@@ -18,13 +18,19 @@ theorem evalRulePar_rowsA (I : Interp E B G P A) (hI : Plan.Ext I) (cfg : Config
     (p : Program E B G P A) (ix : IxSets) (σ : Sched E B G P A) (n : Nat) (a : SccSt) (s : PCScc)
     (hV : ViewsOk cfg p ix a s.erase) (r : Rule E B G P A) (hr : RuleFitA V p ix r)
     (hag : AgOk I cfg p a s.erase (Hir.compileRule V r) 0 r.body) (vs : List (Option Ver))
-    (hfz : ∀ c ∈ clausesOf 0 r.body vs, viewFrozen s c.2.1 c.2.2 = true) :
+    (hfz : ∀ c ∈ clausesOf 0 r.body vs, viewFrozen s c.2.1 c.2.2 = true)
+    (hfa : ∀ ag, Item.agg ag ∈ r.body → viewFrozen s ag.rel (some .total) = true) :
     ∃ envs, evalRulePar I p σ n s (Hir.compileRule V r) r.body vs = .ok envs ∧
       ∀ x, x ∈ envs.flatMap (headRows I r.heads) ↔ x ∈ (evalBody I cfg p a r.body vs []).flatMap (headRows I r.heads) := by
   have hall : (clausesOf 0 r.body vs).all (fun c => viewFrozen s c.2.1 c.2.2) = true := List.all_eq_true.mpr hfz
+  have halla : (aggsOf r.body).all (fun r => viewFrozen s r (some .total)) = true := by
+    apply List.all_eq_true.mpr
+    intro x hx
+    obtain ⟨ag, h1, rfl⟩ := mem_aggsOf r.body x hx
+    exact hfa ag h1
   unfold evalRulePar
-  rw [hall]
-  simp only [Bool.not_true, Bool.false_eq_true, if_false]
+  rw [hall, halla]
+  simp only [Bool.and_self, Bool.not_true, Bool.false_eq_true, if_false]
   split
   · rename_i he
     refine ⟨[], rfl, fun x => ?_⟩
@@ -54,7 +60,8 @@ theorem iterTasksPar_rowsA (I : Interp E B G P A) (hI : Plan.Ext I) (cfg : Confi
     (p : Program E B G P A) (ix : IxSets) (σ : Sched E B G P A) (n : Nat) (dynR : List RelId) (a : SccSt) (s : PCScc)
     (hV : ViewsOk cfg p ix a s.erase) (rules : List (Rule E B G P A)) (hR : ∀ r ∈ rules, RuleFitA V p ix r)
     (hag : ∀ r ∈ rules, AgOk I cfg p a s.erase (Hir.compileRule V r) 0 r.body)
-    (hfz : ∀ r ∈ rules, ∀ vs, ∀ c ∈ clausesOf 0 r.body vs, viewFrozen s c.2.1 c.2.2 = true) :
+    (hfz : ∀ r ∈ rules, ∀ vs, ∀ c ∈ clausesOf 0 r.body vs, viewFrozen s c.2.1 c.2.2 = true)
+    (hfa : ∀ r ∈ rules, ∀ ag, Item.agg ag ∈ r.body → viewFrozen s ag.rel (some .total) = true) :
     ∃ tasks, iterTasksPar I V p σ n dynR rules s = .ok tasks ∧ (∀ t ∈ tasks, t.1 ∈ rules) ∧
       ∀ x, x ∈ tasks.flatMap (fun t => headRows I t.1.heads t.2) ↔ x ∈ iterRows I cfg p dynR rules a := by
   obtain ⟨tasks, hfold, hin, hmem⟩ := foldRes_inv
@@ -71,7 +78,7 @@ theorem iterTasksPar_rowsA (I : Interp E B G P A) (hI : Plan.Ext I) (cfg : Confi
         obtain ⟨vs, _, rfl⟩ := List.mem_map.mp hrv'
         exact hr
       obtain ⟨envs, he, hrows⟩ := evalRulePar_rowsA I hI cfg V hS p ix σ (n + acc.length) a s hV rv.1 (hR _ hrule)
-        (hag _ hrule) rv.2 (hfz _ hrule rv.2)
+        (hag _ hrule) rv.2 (hfz _ hrule rv.2) (hfa _ hrule)
       refine ⟨acc ++ envs.map fun ρ => (rv.1, ρ), by rw [he]; rfl, ?_, ?_⟩
       · intro t ht
         rcases List.mem_append.mp ht with ht | ht
@@ -92,6 +99,42 @@ theorem iterTasksPar_rowsA (I : Interp E B G P A) (hI : Plan.Ext I) (cfg : Confi
     exact ⟨(r, vs), ⟨r, hr, vs, hvs, rfl⟩, ρ, hρ, hd, hhd, rfl⟩
 
 /-! ## one iteration -/
+
+/-- What `evalRulePar` asks of the aggregation items (`__aggregated_rel.index_get(..)` on a `CRelIndex` / `CRelFullIndex` /
+`CRelNoIndex` `unwrap_frozen()`s): while the rules of an iteration run, every index of every aggregated relation of the SCC's
+rules is frozen — the aggregated relation is body-only in the SCC, and `enterScc` froze the indices of the body-only
+relations. -/
+theorem iteration_aggFrozen (p : Program E B G P A) (ix : IxSets) (dynR : List RelId) (N : Nat) (bo : List RelId)
+    (rules : List (Rule E B G P A))
+    (hbo : ∀ rule ∈ rules, ∀ r ∈ rule.bodyRels, dynR.contains r = false → bo.contains r = true ∧ r < p.rels.length)
+    (a : SccSt) (s : PCScc) (hwf : WF p.rels.length dynR a) (hsim : Sim p ix a s.erase) (hfl : Flags N bo false s) :
+    ∀ rule ∈ rules, ∀ ag, Item.agg ag ∈ rule.body → ∀ v,
+      viewFrozen { s with dyn := s.dyn.map freezeDyn, changed := false } ag.rel v = true := by
+  intro rule hr ag hag v
+  have hwf0 : WF p.rels.length dynR { a with changed := false } := WF_reset _ dynR hwf
+  have hsim0 : Sim p ix { a with changed := false }
+      (PCScc.erase { s with dyn := s.dyn.map freezeDyn, changed := false }) := by
+    rw [erase_freezeAll]; exact reset_sim hsim
+  apply viewFrozen_ok (Flags_freezeAll hfl)
+  intro hnone
+  have hcr : ag.rel ∈ rule.bodyRels := List.mem_filterMap.mpr ⟨.agg ag, hag, rfl⟩
+  have hnd : dynR.contains ag.rel = false := by
+    rw [← hwf0.dyn_iff]
+    rcases hsim0.dyn.find ag.rel with ⟨h1, _⟩ | ⟨d, pd, _, h2, _⟩
+    · rw [h1]; rfl
+    · have : findPDyn (PCScc.erase { s with dyn := s.dyn.map freezeDyn, changed := false }).dyn ag.rel =
+          (findPCDyn (s.dyn.map freezeDyn) ag.rel).map PCDyn.erase := findPDyn_erase _ _
+      rw [h2] at this
+      have hnone' : findPCDyn (s.dyn.map freezeDyn) ag.rel = none := hnone
+      rw [hnone'] at this
+      cases this
+  obtain ⟨hb, hlt'⟩ := hbo rule hr ag.rel hcr hnd
+  refine ⟨hb, ?_⟩
+  show ag.rel < s.rels.length
+  have h1 : a.rels.length = s.rels.length := by
+    have := hsim.len
+    simpa [PCScc.erase] using this
+  rw [← h1, hwf.len]; exact hlt'
 
 /-- the invariant of the head updates of an iteration -/
 structure PIParM (p : Program E B G P A) (ix : IxSets) (dynR : List RelId) (N : Nat) (bo : List RelId) (a₀ a : SccSt)
@@ -212,7 +255,9 @@ theorem iteration_simA (σ : Sched E B G P A) (k : Nat) (rules : List (Rule E B 
     rw [Nat.zero_add]
     obtain ⟨g1, g2, g3⟩ := (hR r hr).agg j ag hj
     exact aggEnvs_of_sim I hperm cfg p hl ix hsim0 hm0 hwf0 _ j ag (hstr r hr ag (List.mem_of_getElem? hj)) g1 g2 g3 ρ
-  obtain ⟨tasks, htasks, htr, hrows⟩ := iterTasksPar_rowsA I hI cfg V hS p ix σ (k * 1000003) dynR _ _ hV rules hR hag hfz
+  -- the indices of the aggregated relations are frozen
+  have hfa := fun r hr ag hag => iteration_aggFrozen p ix dynR N bo rules hbo a s hwf hsim hfl r hr ag hag (some .total)
+  obtain ⟨tasks, htasks, htr, hrows⟩ := iterTasksPar_rowsA I hI cfg V hS p ix σ (k * 1000003) dynR _ _ hV rules hR hag hfz hfa
   have hpermT := σ.permTasks_perm k tasks
   obtain ⟨s1, hfold, l, hml, hinv⟩ := tasks_simParA I V p ix dynR hlt N hN bo { a with changed := false } σ k rules hR
     (σ.permTasks k tasks) (fun t ht => htr t (hpermT.mem_iff.mp ht)) _ _ ⟨hwf0, Ext.refl _, hsim0, hm0, hfl0⟩
@@ -269,42 +314,6 @@ theorem sccLoop_simParA (σ : Sched E B G P A) (rules : List (Rule E B G P A)) (
       exact ⟨a', k + 1, LoopND.more hpass (by rw [hch, hc]) hloop, hsim', hm', hwf', hset', hfl'⟩
 
 end Pass
-
-/-- What the model does NOT ask (`evalRulePar` checks `viewFrozen` for the clause relations only) but the generated code does
-(`__aggregated_rel.index_get(..)` on a `CRelIndex` / `CRelFullIndex` `unwrap_frozen()`s): while the rules of an iteration run,
-every index of every aggregated relation of the SCC's rules is frozen — the aggregated relation is body-only in the SCC, and
-`enterScc` froze the indices of the body-only relations. -/
-theorem iteration_aggFrozen (p : Program E B G P A) (ix : IxSets) (dynR : List RelId) (N : Nat) (bo : List RelId)
-    (rules : List (Rule E B G P A))
-    (hbo : ∀ rule ∈ rules, ∀ r ∈ rule.bodyRels, dynR.contains r = false → bo.contains r = true ∧ r < p.rels.length)
-    (a : SccSt) (s : PCScc) (hwf : WF p.rels.length dynR a) (hsim : Sim p ix a s.erase) (hfl : Flags N bo false s) :
-    ∀ rule ∈ rules, ∀ ag, Item.agg ag ∈ rule.body → ∀ v,
-      viewFrozen { s with dyn := s.dyn.map freezeDyn, changed := false } ag.rel v = true := by
-  intro rule hr ag hag v
-  have hwf0 : WF p.rels.length dynR { a with changed := false } := WF_reset _ dynR hwf
-  have hsim0 : Sim p ix { a with changed := false }
-      (PCScc.erase { s with dyn := s.dyn.map freezeDyn, changed := false }) := by
-    rw [erase_freezeAll]; exact reset_sim hsim
-  apply viewFrozen_ok (Flags_freezeAll hfl)
-  intro hnone
-  have hcr : ag.rel ∈ rule.bodyRels := List.mem_filterMap.mpr ⟨.agg ag, hag, rfl⟩
-  have hnd : dynR.contains ag.rel = false := by
-    rw [← hwf0.dyn_iff]
-    rcases hsim0.dyn.find ag.rel with ⟨h1, _⟩ | ⟨d, pd, _, h2, _⟩
-    · rw [h1]; rfl
-    · have : findPDyn (PCScc.erase { s with dyn := s.dyn.map freezeDyn, changed := false }).dyn ag.rel =
-          (findPCDyn (s.dyn.map freezeDyn) ag.rel).map PCDyn.erase := findPDyn_erase _ _
-      rw [h2] at this
-      have hnone' : findPCDyn (s.dyn.map freezeDyn) ag.rel = none := hnone
-      rw [hnone'] at this
-      cases this
-  obtain ⟨hb, hlt'⟩ := hbo rule hr ag.rel hcr hnd
-  refine ⟨hb, ?_⟩
-  show ag.rel < s.rels.length
-  have h1 : a.rels.length = s.rels.length := by
-    have := hsim.len
-    simpa [PCScc.erase] using this
-  rw [← h1, hwf.len]; exact hlt'
 
 /-! ## one SCC, the SCCs in order -/
 
